@@ -1103,6 +1103,10 @@ func (s *sim) run() {
 				// or races through rounds whose deadlines have passed at the very instant of emission, makes the
 				// message stale at its source; that is not the link's doing.)
 				left, was := o.leftAt[sm.Message.Round]
+				if end, ok := s.anchoredEnd(sm.Message.Round); ok && e.te >= end {
+					// emitted after the global (slot-anchored) end of its round: stale at its source, whatever the link did
+					was = false
+				}
 				if inst := o.inst(); inst != nil && inst.State.Round > sm.Message.Round && !(e.rAtEm != 0 && e.rAtEm <= sm.Message.Round && was && left > e.te) {
 					if !s.lagged {
 						s.logf("t=%d LAGGING: %s r%d from op%v was emitted when op%d had already left that round", e.t, msgKind(nil, sm), sm.Message.Round, sm.Signers, o.id)
